@@ -219,7 +219,7 @@ Section Decode.
   Lemma lc_null_iff u : 0 <= u < N ->
     exists lc, get (left_child t) u = Ok lc /\ (lc = NULL <-> forall c, par c <> Some u).
   Proof.
-    intros R. destruct (KR u R) as (ks & CH & K). unfold children in CH.
+    intros R. destruct (KR u R) as (ks & CH & _ & K). unfold children in CH.
     destruct (get (left_child t) u) as [lc| | |]; try discriminate. cbn [bind] in CH.
     exists lc. split; [reflexivity|]. split.
     - intros ->. rewrite chain_null in CH. inversion CH; subst. intros c Hc. apply K in Hc. contradiction.
